@@ -64,7 +64,13 @@ pub fn run_stage(
     let next = Arc::new(AtomicUsize::new(0));
     let results: Arc<Mutex<Vec<Option<ItemResult>>>> =
         Arc::new(Mutex::new(vec![None; n_items]));
-    let exe = std::env::current_exe().expect("current_exe");
+    // /proc/self/exe keeps naming this very binary even if the file was
+    // replaced by a rebuild while the run is in progress
+    let exe = if std::path::Path::new("/proc/self/exe").exists() {
+        std::path::PathBuf::from("/proc/self/exe")
+    } else {
+        std::env::current_exe().expect("current_exe")
+    };
     let args: Vec<String> = std::env::args().skip(1).collect();
     let mut threads = vec![];
     let nworkers = opts.workers.max(1).min(n_items.max(1));
